@@ -498,6 +498,11 @@ var prDedicated = []string{
 	// substitutions that span lines, also inside here-document bodies and double quotes
 	"cat <<E\n$((\n+2)) x\nE\n", "cat <<E\n$(a\nb) x\nE\n", "cat <<E; c <<F\n`a\nb`\nE\n$((1 +\n2))\nF\n", "echo $((\n1 +\n2))\n", "echo \"$(a\nb) $((\n1))\"\n",
 	"a <<E || b && ! { c\n$((\n+2))\nE\n}\n", "a <<E | { b\n$(c\nd)\nE\n}\n", "a <<E && (b\n$((\n1))\nE\n)\n",
+	// a here-document line that continues with a multi-line substitution / arithmetic command
+	"cat <<E; echo $(\n\ta\n)\nbody\nE\n", "cat <<E | tee `\n\ta\n`\nbody\nE\n", "cat <<E $(\n\ta\n)\nbody\nE\n", "x=$(\n\ta\n) cat <<E\nbody\nE\n",
+	"cat <<E; ((\n1\n))\nbody\nE\n", "cat <<E; echo $((\n1\n))\nbody\nE\n", "cat <<E $((\n1 +\n2))\nbody\nE\n",
+	// delimiters and patterns that need care when they are written back
+	"cat << -E\nx\n-E\n", "cat <<- -E\n\tx\n\t-E\n", "case x in (esac) a;; esac\n", "case x in (esac|b) a;; (c) ;; esac\n", "case esac in (a) b;; esac\n",
 	"a <<E\n$(b <<F\nx\nF\n)\nE\n", "{ a <<E\n$((\n1))\nE\n}\n", "echo $(a\nb) $(\nc\n)\n",
 	"if a; then\nb\nelif c; then\nd\nelse\ne\nfi\n", "{\na\nb; c\n}\n", "(a; b)\n", "(\na\n)\n", "a; b; c\n", "a & b &\n",
 }
